@@ -20,6 +20,8 @@ mod fam_abt;
 mod fam_vtime;
 mod fam_nfs;
 mod fam_stream;
+mod scale_common;
+mod scale_iovec;
 mod util;
 
 use std::io::Write;
@@ -43,6 +45,7 @@ fn families() -> Vec<Box<dyn Family>> {
     v.push(Box::new(fam_nfs::NfsFamily));
     v.push(Box::new(fam_stream::ChunkerFamily));
     v.push(Box::new(fam_stream::ReaderFamily));
+    v.push(Box::new(scale_iovec::ScaleIovecFamily));
     v
 }
 
